@@ -777,8 +777,8 @@ func CheckPar(p *ps.Program, sc *ps.Scenario, o *Obs) []Mismatch {
 		return m.list
 	}
 	// ideal: every function whose dependencies succeed runs
-	ideal := map[string]bool{}  // call line -> expected (when run)
-	never := map[string]bool{}  // call lines that must not appear
+	ideal := map[string]bool{}    // call line -> expected (when run)
+	never := map[string]bool{}    // call lines that must not appear
 	failOf := map[string]string{} // call line -> ret entry
 	var C []string
 	endDeps := map[string][]string{} // end call line -> element call lines
